@@ -52,7 +52,7 @@ def gen_config(rng, tier, profile):
     s['MAX_UPDATES_PER_SECOND'] = float('inf')
     s['MAX_CREATES_PER_MINUTE'] = float('inf')
   if profile == 'c10' and rng.random() < 0.25:
-    s['CARBON_METRIC_INTERVAL'] = rng.choice([1, 2, 10])     # the daemon reports its own counters
+    s['CARBON_METRIC_INTERVAL'] = rng.choice([5, 10, 30])    # the daemon reports its own counters
   cfg = {'daemon': 'cache', 'settings': s, 'files': {}, 'profile': profile}
   if profile == 'c19':
     from . import c19
